@@ -44,11 +44,14 @@ CHECKS = {
     'C14': ("proof", "Coq theorems over tables regenerated from /repo on every run (routing table, version windows of every handler "
             "overload, in-handler version gates, VERSIONS): availability for all 40 versions x all routes x all methods equals the "
             "documented surface (complete finite domain, vm_compute + forallb_forall), handler change points equal the documented "
-            "ones, negotiation for any requested version; plus exhaustive probing of the real service (3800 availability probes, "
-            "43 versioned features x 40 versions, headers).",
+            "ones, negotiation for any requested version; C14_fields: every documented request member and query parameter (50 entries) "
+            "is rejected below and accepted/required from its documented version by the schema the operation validates with at each "
+            "version, read off the JSON schemas REGENERATED from placement/schemas (1593 facts; the schema-per-version table is learnt "
+            "from the running code on every run); plus exhaustive probing of the real service (3800 availability probes, "
+            "53 versioned features x 40 versions, headers).",
             "6 C14", "Trusted: kernel, translate/routes.py (ast reader, fail-closed), the documented surface transcribed by hand "
-            "into spec/surface.json, microversion_parse modelled; request/response field features are decided by exhaustive probing, "
-            "not by a theorem (labelled partial).",
+            "into spec/surface.json, microversion_parse modelled; RESPONSE fields and headers per version are decided by exhaustive "
+            "probing, not by a theorem (labelled partial).",
             "Coq finite-domain proof over regenerated tables (translator) + exhaustive surface probing"),
     'C16': ("proof", "Coq theorems over the regenerated routing/decorator/policy tables and a pipeline model with an arbitrary "
             "handler body, state type and policy: every routed operation checks its documented rule before any effect, 401 without "
